@@ -264,6 +264,8 @@ class OnceOracle(HOracle):
             return
         for m in self.ledger.msgs.values():
             for r in m.all_rcpts():
+                if "R" in r.reports:
+                    continue        # re-opened after a failed mark write (injected fault): "will be delivered twice" is documented
                 ks = r.reports.count("K")
                 if ks > 1 or (ks == 1 and r.reports[-1] != "K"):
                     self.violate("C04/delivered-more-than-once", "recipient %r of message %d: reports %r without any crash" % (r.addr, m.num, r.reports))
